@@ -420,11 +420,65 @@ class T(Entity):
 """
 
 
+REC_SRC = """from __future__ import annotations
+from cohdl import std, Entity, Port, Bit, BitVector, Unsigned, Signal
+import cohdl
+
+class Inner(std.Record):
+    y: Unsigned[2]
+    z: Bit
+
+class Mid(std.Record):
+    w: Unsigned[2]
+    inner: Inner
+
+class Outer(std.Record):
+    x: Unsigned[2]
+    mid: Mid
+
+class T(Entity):
+    clk = Port.input(Bit)
+    rst = Port.input(Bit)
+    ld = Port.input(Bit)
+    a = Port.input(Unsigned[2])
+    ox = Port.output(Unsigned[2])
+    ow = Port.output(Unsigned[2])
+    oy = Port.output(Unsigned[2])
+    oz = Port.output(Bit)
+    def architecture(self):
+        r = {init}
+        @std.concurrent
+        def conc():
+            self.ox <<= r.x
+            self.ow <<= r.mid.w
+            self.oy <<= r.mid.inner.y
+            self.oz <<= r.mid.inner.z
+        @std.sequential(std.Clock(self.clk), std.Reset(self.rst, is_async={a}, active_low={l}))
+        def proc():
+            if self.ld:
+                r.x <<= self.a
+                r.mid.w <<= self.a + 1
+                r.mid.inner.y <<= ~self.a
+                r.mid.inner.z <<= self.a[0]
+"""
+
+# how the record of signals gets its defaults -> value every member must take while reset is active
+REC_INITS = [
+    ("null", "std.Signal[Outer](cohdl.Null)", dict(ox=0, ow=0, oy=0, oz=0)),
+    ("full", "std.Signal[Outer](cohdl.Full)", dict(ox=3, ow=3, oy=3, oz=1)),
+    ("kwargs", "std.Signal[Outer](x=1, mid=Mid(w=2, inner=Inner(y=1, z=True)))", dict(ox=1, ow=2, oy=1, oz=1)),
+    ("value", "std.Signal[Outer](Outer(x=2, mid=Mid(w=1, inner=Inner(y=2, z=False))))", dict(ox=2, ow=1, oy=2, oz=0)),
+    ("kwargs-nested-full", "std.Signal[Outer](x=1, mid=cohdl.Full)", dict(ox=1, ow=3, oy=3, oz=1)),
+    ("kwargs-inner-null", "std.Signal[Outer](x=2, mid=Mid(w=1, inner=cohdl.Null))", dict(ox=2, ow=1, oy=0, oz=0)),
+]
+
+
 def work_reset_equiv(task):
     """generic differential oracle for "after reset is released the context behaves exactly as after power-up": for every
     state s reachable from power-up, reset is applied in s and the pair (s after reset, power-up state) is explored under all
     inputs; the outputs of the two copies must agree in every reachable pair"""
-    name, src, (a, l), inputs, outs = task
+    name, src, (a, l), inputs, outs = task[:5]
+    expect = task[5] if len(task) > 5 else None
     res, _ = compile_source(src)
     if not res.ok:
         return {"name": name, "status": "rejected", "error": res.error}
@@ -463,6 +517,11 @@ def work_reset_equiv(task):
         sa.settle()
         if not a:
             sa.clock()
+        if expect is not None:
+            got = {k: sa.get(k) for k in expect}
+            if got != expect:
+                return {"name": name, "status": "violation", "src": src, "states": len(seen), "transitions": transitions,
+                        "what": f"inputs {hist} then reset active: outputs {got}, the defaults are {expect}"}
         sa.set_many({"rst": inact})
         sa.settle()
         start = (sa.snapshot(), power)
@@ -498,6 +557,11 @@ def reset_equiv_tasks():
             out.append((f"derived/executor/{maker}/{'async' if fl[0] else 'sync'}-{'low' if fl[1] else 'high'}",
                         EXEC_SRC.format(a=fl[0], l=fl[1], maker=maker, deco="" if maker == "make_parallel" else "(executors=[executor])"),
                         fl, inputs, ("res", "busy")))
+    inputs = [dict(ld=s_, a=v) for s_ in (0, 1) for v in (0, 1, 2)]
+    for iname, init, expect in REC_INITS:
+        for fl in [(a, l) for a in (False, True) for l in (False, True)]:
+            out.append((f"derived/nested-record/{iname}/{'async' if fl[0] else 'sync'}-{'low' if fl[1] else 'high'}",
+                        REC_SRC.format(a=fl[0], l=fl[1], init=init), fl, inputs, tuple(expect), expect))
     return out
 
 
